@@ -187,9 +187,13 @@ fn judge_conj(st: &mut Stats, rng: &mut Rng) {
 }
 
 fn judge_f64(st: &mut Stats, rng: &mut Rng) {
-    let n = if rng.chance(0.3) { rng.usize(1, 2) } else { rng.usize(1, 12) };
+    // "for every size": one case in eight is long (13..96 rows), so that blocked / unrolled loops with a remainder
+    // are driven through every residue; long cases always take the exactly representable class (a)
+    let big = rng.chance(0.125);
+    let n = if big { rng.usize(13, 96) } else if rng.chance(0.3) { rng.usize(1, 2) } else { rng.usize(1, 12) };
     st.next_case();
-    if rng.bool() {
+    if big { st.count("cases:f64:long(13..96)"); }
+    if big || rng.bool() {
         // (a) exactly representable elimination: T = L*U, L unit lower bidiagonal (integer l), U upper bidiagonal with
         // power-of-two diagonal (possibly zero at one step) => f64 Thomas is exact and must mirror the Rat model
         let l: Vec<i64> = (0..n - 1).map(|_| rng.int(-3, 3)).collect();
@@ -256,13 +260,35 @@ fn judge_f64(st: &mut Stats, rng: &mut Rng) {
         // product and det on integer data are exact
         let v: Vec<f64> = (0..n).map(|_| rng.int(-9, 9) as f64).collect();
         let d = tf.dense();
+        if big {
+            // structural operations at long sizes (the exact-type judges stay at n <= 12)
+            st.eval();
+            match catch(|| m.convert()) { Outcome::Ok(x) => if !d.eq_ohsl(&x) { st.violation("C05:convert:f64:wrong-result", desc()); }, o => st.violation("C05:convert:f64:panic", format!("{}; {}", o.describe(), desc())) }
+            let tt = Tri { sub: tf.sup.clone(), main: tf.main.clone(), sup: tf.sub.clone() };
+            st.eval();
+            match catch(|| m.transpose()) { Outcome::Ok(x) => if !tt.same(&x) { st.violation("C05:transpose:f64:wrong-result", desc()); }, o => st.violation("C05:transpose:f64:panic", format!("{}; {}", o.describe(), desc())) }
+            st.eval();
+            match catch(|| { let mut x = m.clone(); x.transpose_in_place(); x }) { Outcome::Ok(x) => if !tt.same(&x) { st.violation("C05:transpose_in_place:f64:wrong-result", desc()); }, o => st.violation("C05:transpose_in_place:f64:panic", format!("{}; {}", o.describe(), desc())) }
+            st.eval();
+            for i in 0..n { for j in i.saturating_sub(1)..(i + 2).min(n) {
+                if !matches!(catch(|| m[(i, j)]), Outcome::Ok(x) if x == d.a[i][j]) { st.violation("C05:index:f64:wrong-value", format!("T[({},{})] != {:?}; {}", i, j, d.a[i][j], desc())); }
+            } }
+            st.eval();
+            match catch(|| m.clone() * Vector::create(v.clone())) { Outcome::Ok(p) => if p.vec != d.mulvec(&v) { st.violation("C05:mulvec-owned:f64:wrong-value", format!("v={:?}; {}", v, desc())); }, o => st.violation("C05:mulvec-owned:f64:panic", format!("{}; {}", o.describe(), desc())) }
+            st.eval();
+            match catch(|| (m.clone() + m.clone(), m.clone() - m.clone(), -m.clone())) {
+                Outcome::Ok((a, b, c)) => { if !tf.map(|x| x + x).same(&a) || !tf.map(|x| x - x).same(&b) || !tf.map(|x| -x).same(&c) { st.violation("C05:arith:f64:wrong-result", desc()); } }
+                o => st.violation("C05:arith:f64:panic", format!("{}; {}", o.describe(), desc())),
+            }
+        }
         let want = d.mulvec(&v);
         st.eval();
         match catch(|| &m * &Vector::create(v.clone())) { Outcome::Ok(p) => if p.vec != want { st.violation("C05:mulvec:f64:wrong-value", format!("T*v={:?} expected {:?} v={:?}; {}", p.vec, want, v, desc())); }, o => st.violation(&format!("C05:mulvec:f64:panic-n{}", if n == 1 { "1" } else { "ge2" }), format!("{}; {}", o.describe(), desc())) }
-        if let Outcome::Ok((det, _, _)) = catch(|| exact_det_rank_inv(&tr.dense())) {
+        // (long cases: only while the exact determinant is below 2^53, where Rat::to_f64 is certainly exact)
+        if let Outcome::Ok((det, _, _)) = catch(|| exact_det_rank_inv(&tr.dense())) { if !big || det.to_f64().abs() < 9.0e15 {
             st.eval();
             match catch(|| m.det()) { Outcome::Ok(x) => if x != det.to_f64() { st.violation("C05:det:f64:wrong-value", format!("det={} exact {:?}; {}", x, det, desc())); }, o => st.violation("C05:det:f64:panic", format!("{}; {}", o.describe(), desc())) }
-        }
+        } }
         // det under a diagonal similarity scaling D T D^-1 (sub_i * 2^-e_i, sup_i * 2^e_i: every product sub_i*sup_i, hence
         // the determinant, is unchanged bit for bit) with the first row scaled by 2^300 (det scales by exactly 2^300)
         if n >= 2 {
